@@ -8,6 +8,7 @@ SIDECARS = [
     'contracts.csv_c',
     'contracts.display_c',
     'contracts.tracker_c',
+    'contracts.relational_c',
 ]
 
 TRUSTED_COMMON = [
